@@ -490,17 +490,21 @@ theorem c10_plan_sound_kinds (σ : Env) : ∀ (plan : List KNode) (s : Nat → S
       (c10_knode_sound σ n (hp n (by simp)) s c hn.1 h)
 
 /-- Non-vacuity (closed instance of every hypothesis of `c10_plan_sound_kinds`): `x : [n, 4]`
-executed as `[3, 4]`; `Shape(x)`, `Gather(·, 0)`, `Mul(·, ·)`, `Unsqueeze`, `Concat`, and an `Equal`
-of the gathered dimension with itself and with the constant-folded product.  Every kind is proved,
+executed as `[3, 4]`; `Shape(x)`, `Gather(·, 0)`, `Mul(·, ·)`, `Unsqueeze`, `Concat`, an `Equal` of the gathered
+dimension with itself (fold to 1) and `Equal(n + 10, 3)`, whose fold to 0 really uses `range()`.  Every kind is proved,
 the operands of `Equal` are `good`, inference yields `[n * n, n, 4]` and `[1]`-style values and
 execution the numbers. -/
 def demoKPlan : List KNode :=
   [ ⟨1, .shape none none, [0]⟩, ⟨2, .gatherS 0, [1]⟩, ⟨3, .mul, [2, 2]⟩, ⟨4, .unsqueeze0, [3]⟩,
-    ⟨5, .concat, [4, 1]⟩, ⟨6, .equal, [2, 2]⟩, ⟨7, .equal, [1, 5]⟩ ]
+    ⟨5, .concat, [4, 1]⟩, ⟨6, .equal, [2, 2]⟩, ⟨8, .add, [2, 9]⟩, ⟨10, .equal, [8, 11]⟩ ]
 
 def demoσ : Env := fun x => if x = "n" then some 3 else none
-def demoS : Nat → STn := fun i => if i = 0 then .shape [.var "n" true, .val 4] else .unknown
-def demoC : Nat → Option CT := fun i => if i = 0 then some (.shaped [3, 4]) else none
+def demoS : Nat → STn := fun i =>
+  if i = 0 then .shape [.var "n" true, .val 4] else if i = 9 then .scalar (.val 10)
+  else if i = 11 then .scalar (.val 3) else .unknown
+def demoC : Nat → Option CT := fun i =>
+  if i = 0 then some (.shaped [3, 4]) else if i = 9 then some (.scalar 10)
+  else if i = 11 then some (.scalar 3) else none
 
 theorem demo_hyps : (∀ n ∈ demoKPlan, n.kind.proved = true) ∧ needsAlong demoσ demoKPlan demoS = true := by
   constructor
@@ -512,11 +516,18 @@ theorem demo_inputs_agree : AllAgree demoσ demoS demoC := by
   unfold demoC at h
   by_cases h0 : id = 0
   · subst h0; simp at h; subst h; simp [demoS, Agrees, evalList, mapO, Sym.eval, demoσ, CT.dims]
-  · simp [h0] at h
+  · by_cases h9 : id = 9
+    · subst h9; simp at h; subst h; exact ⟨10, rfl, rfl⟩
+    · by_cases h11 : id = 11
+      · subst h11; simp at h; subst h; exact ⟨3, rfl, rfl⟩
+      · simp [h0, h9, h11] at h
 
 example : (runK demoKPlan demoS demoC).1 5 = .vector [.mul (.var "n" true) (.var "n" true), .var "n" true, .val 4] ∧
     (runK demoKPlan demoS demoC).2 5 = some (.vector [9, 3, 4]) ∧
-    (runK demoKPlan demoS demoC).1 6 = .scalar (.val 1) ∧ (runK demoKPlan demoS demoC).2 6 = some (.scalar 1) := by
+    (runK demoKPlan demoS demoC).1 6 = .scalar (.val 1) ∧ (runK demoKPlan demoS demoC).2 6 = some (.scalar 1) ∧
+    -- node 10 really goes through `range()`: `n + 10` has range (10, i32::MAX), disjoint from (3, 3)
+    (runK demoKPlan demoS demoC).1 8 = .scalar (.add (.var "n" true) (.val 10)) ∧
+    (runK demoKPlan demoS demoC).1 10 = .scalar (.val 0) ∧ (runK demoKPlan demoS demoC).2 10 = some (.scalar 0) := by
   decide
 
 /-- The instance of the theorem itself. -/
